@@ -89,7 +89,7 @@ BUILTIN_NAMES = {
     "len", "range", "enumerate", "zip", "isinstance", "issubclass", "tuple", "list", "dict", "set",
     "any", "all", "sum", "min", "max", "abs", "int", "float", "bool", "str", "repr", "hasattr",
     "getattr", "setattr", "iter", "next", "map", "sorted", "reversed", "type", "print", "super",
-    "id", "callable", "frozenset", "object", "round", "divmod", "pow",
+    "id", "callable", "frozenset", "object", "round", "divmod", "pow", "locals",
     "RuntimeError", "ValueError", "TypeError", "KeyError", "AttributeError", "IndexError",
     "NotImplementedError", "AssertionError", "Exception", "StopIteration", "UnboundLocalError",
     "ZeroDivisionError", "DeprecationWarning", "FutureWarning", "UserWarning",
